@@ -336,7 +336,8 @@ def _run_check(mod: Any, check_id: str, tier: str, sd: int, t0: float, tmp: Path
         'repo': repo_dir(),
     }
     if not replay:
-        edir = VERIF / 'evidence'
+        # runs against a scratch copy (seeded change, mutant) must not overwrite the evidence of the real tree
+        edir = Path(os.environ.get('VERIF_EVIDENCE_DIR') or VERIF / 'evidence')
         edir.mkdir(exist_ok=True)
         (edir / f'{check_id}.json').write_text(json.dumps(ev, indent=1, default=str) + '\n')
     print(f"{check_id} tier={tier} seed={sd} cases={len(cases)} evaluations={cov['evaluations']} "
